@@ -101,3 +101,42 @@ package reorgdetector
 //@   ensures[an-existing-subscriber-keeps-its-subscription-and-its-tracked-blocks] old(has(rd.subscriptions, id)) ==> result1 == nil && result0 == old(rd.subscriptions[id]) && has(rd.trackedBlocks, id) == old(has(rd.trackedBlocks, id)) && rd.trackedBlocks[id] == old(rd.trackedBlocks[id])
 //@   ensures[a-new-subscriber-is-registered-with-a-list-of-its-own] !old(has(rd.subscriptions, id)) ==> result1 == nil && result0 != nil && has(rd.subscriptions, id) && rd.subscriptions[id] == result0 && has(rd.trackedBlocks, id) && rd.trackedBlocks[id] != nil && fresh(rd.trackedBlocks[id])
 //@   ensures[the-maps-stay-the-detectors] rd.subscriptions == old(rd.subscriptions) && rd.trackedBlocks == old(rd.trackedBlocks)
+
+// ---- tracking a block (C06): a block the driver is told is tracked (AddBlockToTrack returned nil, the driver goes on to
+// process it) must be in the durable store: after a restart only the store says which processed blocks may still be
+// replaced. durHas / durHash are the rows of tracked_block of the subscriber at hand (ghost; the INSERT's meaning is
+// assumed at the library call, A5). Invariant carried by both functions: every block the in-memory list holds is in the
+// store with the same hash ("memory within store") - the early return of AddBlockToTrack ("already tracked") relies on it.
+//@ ghost var durHas map[uint64]bool
+//@ ghost var durHash map[uint64]common.Hash
+//@ extern github.com/russross/meddler.Insert@reorgdetector.(*ReorgDetector).saveTrackedBlock (db, table, src)
+//@   requires typeIs(src, *headerWithSubscriberID) && cast(src, *headerWithSubscriberID) != nil
+//@   modifies durHas, durHash
+//@   ensures result == nil ==> durHas == upd(old(durHas), cast(src, *headerWithSubscriberID).Num, true) && durHash == upd(old(durHash), cast(src, *headerWithSubscriberID).Num, cast(src, *headerWithSubscriberID).Hash)
+//@   ensures result != nil ==> durHas == old(durHas) && durHash == old(durHash)
+
+//@ func (rd *ReorgDetector) saveTrackedBlock
+//@   props C06
+//@   requires rd != nil && rd.trackedBlocks != nil && rd.log != nil
+//@   requires has(rd.trackedBlocks, id) ==> rd.trackedBlocks[id] != nil && rd.trackedBlocks[id].headers != nil
+//@   requires[memory-within-store] has(rd.trackedBlocks, id) ==> forall(n, int, has(rd.trackedBlocks[id].headers, n) ==> durHas[n] && durHash[n] == rd.trackedBlocks[id].headers[n].Hash)
+//@   modifies heap, durHas, durHash
+//@   ensures[success-means-tracked-in-memory-and-in-the-store] result == nil ==> has(rd.trackedBlocks, id) && rd.trackedBlocks[id] != nil && has(rd.trackedBlocks[id].headers, b.Num) && rd.trackedBlocks[id].headers[b.Num].Hash == b.Hash && durHas[b.Num] && durHash[b.Num] == b.Hash
+//@   ensures[memory-stays-within-the-store] has(rd.trackedBlocks, id) ==> forall(n, int, has(rd.trackedBlocks[id].headers, n) ==> durHas[n] && durHash[n] == rd.trackedBlocks[id].headers[n].Hash)
+
+//@ func (hl *headersList) get
+//@   props C06
+//@   requires hl != nil
+//@   modifies nothing
+//@   ensures[the-header-held-for-that-number] result1 == nil ==> result0 != nil && has(hl.headers, num) && *result0 == hl.headers[num]
+//@   ensures[not-held-is-an-error] !has(hl.headers, num) ==> result1 != nil
+
+//@ func (rd *ReorgDetector) AddBlockToTrack
+//@   props C06
+//@   requires rd != nil && rd.trackedBlocks != nil && rd.log != nil
+//@   requires has(rd.trackedBlocks, id) ==> rd.trackedBlocks[id] != nil && rd.trackedBlocks[id].headers != nil
+//@   requires[memory-within-store] has(rd.trackedBlocks, id) ==> forall(n, int, has(rd.trackedBlocks[id].headers, n) ==> durHas[n] && durHash[n] == rd.trackedBlocks[id].headers[n].Hash)
+//@   modifies heap, durHas, durHash
+//@   ensures[success-means-durably-tracked] (result == nil && rd.finalizedBlockType != aggkittypes.LatestBlock) ==> durHas[num] && durHash[num] == hash
+//@   ensures[unknown-subscriber-refused] (rd.finalizedBlockType != aggkittypes.LatestBlock && !old(has(rd.trackedBlocks, id))) ==> result != nil
+//@   ensures[memory-stays-within-the-store] has(rd.trackedBlocks, id) ==> forall(n, int, has(rd.trackedBlocks[id].headers, n) ==> durHas[n] && durHash[n] == rd.trackedBlocks[id].headers[n].Hash)
